@@ -131,9 +131,11 @@ Fixpoint str_loop (fuel : nat) (cur : bytes) (consumed : nat) (out : bytes) (max
    The limit is therefore inert: the walk ends only at a closing quote, at an
    invalid escape, or -- when no quote follows at all -- never (fuel
    exhaustion stands for that run-away read; Proofs show it is unreachable
-   from Parse because stage 1 only hands over quotes that are closed). *)
-Definition str_validate (mem : bytes) (max : nat) : str_res :=
-  str_loop (S (S (length mem))) mem 0 [] None.
+   from Parse because stage 1 only hands over quotes that are closed).
+   [fuel] is supplied by the caller: any value above the length of the message
+   suffices (one iteration consumes at least one byte). *)
+Definition str_validate (mem : bytes) (max : nat) (fuel : nat) : str_res :=
+  str_loop fuel mem 0 [] None.
 
 (* _parse_string after a successful validation: same walk, no limit; the fuel
    is the source length found by the validation. *)
@@ -146,11 +148,11 @@ Definition str_copy (mem : bytes) (srclen : nat) : str_res :=
 Record pstr_res := { ps_word : N; ps_len : N; ps_app : bytes }.
 
 Definition parse_string_model (msg_from_quote : bytes) (idx : N) (max : nat) (need_copy : bool)
-           (slen : N) : outcome pstr_res :=
+           (slen : N) (fuel : nat) : outcome pstr_res :=
   match msg_from_quote with
   | [] => Crash                       (* buf[1] with an empty buffer *)
   | _ :: mem =>
-    match str_validate mem max with
+    match str_validate mem max fuel with
     | StrFuel => OutOfFuel
     | StrFail => Err
     | StrOk srclen dec =>
